@@ -7,6 +7,8 @@ from aquacrop.entities.paramStruct import ParamStruct
 from aquacrop import GroundWater
 
 NAME = "gw_series"
+QUICK_N = 600      # each call is a full model initialisation
+THOROUGH_N = 20000
 METHODS = {"Constant": 0, "Variable": 1}
 
 
